@@ -398,6 +398,7 @@ def map_programs(
     consistent_only: bool = True,
     min_funcs: int = 1,
     max_size: int = 3,
+    root_pool: int = 4,  # number of index names the root inputs draw their axes from (small -> more zips)
 ):
     sizes: dict[str, int] = {}
 
@@ -411,7 +412,8 @@ def map_programs(
     for r in range(draw(st.integers(1, 3))):
         rank = draw(st.sampled_from([0, 1, 1, 1, 2, 2, 3][: 2 + 2 * max_rank]))
         rank = min(rank, max_rank)
-        axes = list(draw(st.permutations(INDEX_POOL[:4]))[:rank])
+        rank = min(rank, root_pool)
+        axes = list(draw(st.permutations(INDEX_POOL[:root_pool]))[:rank])
         for a in axes:
             size_of(a)
         kind = "scalar" if rank == 0 else ("ndarray" if rank > 1 else draw(st.sampled_from(["list", "ndarray"])))
